@@ -344,7 +344,9 @@ func (x *Exec) handleLoopHeader(s *State, f *Frame, li *loopInfo, backEdge bool)
 		}
 	}
 	if len(invs) == 0 {
-		unsupported("loop %d of %s has no invariant", li.ordinal, fnName(x.fn))
+		if !x.spec.AutoInv && !(x.prop == "C17" && len(x.spec.Owns) > 0) {
+			unsupported("loop %d of %s has no invariant", li.ordinal, fnName(x.fn))
+		}
 	}
 	// evaluate phis with the incoming edge first so the invariant can be asserted on them
 	loopVars := func() map[string]Val {
